@@ -1,12 +1,16 @@
 (* Correspondence definitions for C27: evaluate the Convert models on the cases the implementation ran. *)
 From Coq Require Import List NArith ZArith Bool.
 Import ListNotations.
-From GMS Require Import Base.CorrLib Codec.C25Arith Codec.C27Convert Codec.C27Strings.
+From GMS Require Import Base.CorrLib Codec.C25Arith Codec.C27Convert Codec.C27Strings Codec.C27Temporal Codec.C27Enum.
 
 Inductive case :=
 | NumCase (t : target) (v : value) (out : outcome)              (* integer / decimal source: Type.Convert *)
 | StrIntCase (t : ity) (bs : list Z) (out : outcome)             (* text into a narrow integer type or BIGINT *)
-| TextCase (binary : bool) (maxlen : Z) (bs : list Z) (nchars : Z) (out : souts).  (* text into VARCHAR/CHAR/VARBINARY *)
+| TextCase (binary : bool) (maxlen : Z) (bs : list Z) (nchars : Z) (out : souts)  (* text into VARCHAR/CHAR/VARBINARY *)
+| DtCase (k : tkind) (p : Z) (bs : list Z) (out : dres)          (* text into DATE / DATETIME(p) / TIMESTAMP(p) *)
+| TimeCase (bs : list Z) (out : tres)                           (* colon-form text into TIME *)
+| YearCase (bs : list Z) (out : yres)                           (* digit text into YEAR *)
+| EsbCase (kind : Z) (n : Z) (v : value) (out : eres).          (* a number into ENUM (0) / SET (1) / BIT (2) of size n *)
 
 Definition souts_eqb (a b : souts) : bool :=
   match a, b with TErr, TErr => true | TOk x, TOk y => zs_eqb x y | _, _ => false end.
@@ -16,6 +20,12 @@ Definition ok (c : case) : bool :=
   | NumCase t v out => outcome_eqb (convert t v) out
   | StrIntCase t bs out => outcome_eqb (conv_int_str t bs) out
   | TextCase b m bs n out => souts_eqb (conv_text b m bs n) out
+  | DtCase k p bs out => match conv_dt k p bs, out with DErr, DErr => true | DOk a, DOk b => a =? b | _, _ => false end
+  | TimeCase bs out => match string_to_timespan bs, out with TmErr, TmErr => true | TmOk a, TmOk b => a =? b | _, _ => false end
+  | YearCase bs out => match conv_year_str bs, out with YErr, YErr => true | YOk a, YOk b => a =? b | _, _ => false end
+  | EsbCase kind n v out =>
+      match (if kind =? 0 then conv_enum n v else if kind =? 1 then conv_set n v else conv_bit n v), out with
+      | EErr, EErr => true | EOk a, EOk b => a =? b | _, _ => false end
   end.
 
 Definition mismatches (cs : list (N * case)) : list N :=
